@@ -321,6 +321,9 @@ def run(chk: core.Check):
     finally:
         rec2.close()
 
+    # ---- code samples as recorded by the engine, incl. requests derived inside checks
+    chk.stages["engine_reports"] = engine_reports(chk, (6 if quick else 60) * (3 if chk.broken else 1))
+
     # ---- listed findings: replay canonical witnesses on the implementation
     for f in chk.findings:
         chk.known(f, witness_fails(f["witness"]))
@@ -511,6 +514,85 @@ def printed_report(chk, rec, n):
             bad += 1
             chk.fail(f"the command printed in the failure report sends a different request: {diff}", {"body": body, "report_block": cmd[:400]})
     return {"runs": done, "differences": bad}
+
+
+def _no_sanitize(schema):
+    from schemathesis.core.output import OutputConfig
+
+    schema.configure(output=OutputConfig(sanitize=False))
+
+
+def engine_reports(chk, n):
+    """Code samples as the ENGINE records them (what the CLI prints under "Reproduce with"): real unit-phase runs in which
+    several checks fail on one generated case and some failures belong to requests derived inside a check (ignored_auth sends
+    the request again without / with wrong credentials).  Every recorded code sample is executed by dash + curl and compared
+    with the request that was originally sent under that test case id."""
+    from harness.engine_util import run_engine
+
+    rng = chk.rng
+    done = bad = derived = 0
+    for i in range(n):
+        secret = rng.choice(["Bearer it's-a-secret", "Bearer a b", 'Bearer "q"', "Bearer $HOME"])
+        in_header = rng.random() < 0.5
+        scheme = {"type": "http", "scheme": "bearer"} if in_header else {"type": "apiKey", "in": "query", "name": "key"}
+        raw = {
+            "openapi": "3.0.2", "info": {"title": "t", "version": "1"},
+            "components": {"securitySchemes": {"S": scheme}},
+            "paths": {"/items/{id}": {"get": {
+                "security": [{"S": []}],
+                "parameters": [{"name": "id", "in": "path", "required": True, "schema": {"type": "string", "enum": [rng.choice(["a", "x y", "it's"])]}},
+                               {"name": "q", "in": "query", "schema": {"type": "string", "enum": [rng.choice(["1", "a b", "x'y"])]}}],
+                "responses": {"200": {"description": "ok", "content": {"application/json": {"schema": {
+                    "type": "object", "required": ["id"], "properties": {"id": {"type": "integer"}}}}}}}}}},
+        }
+
+        def responder(item):
+            # ignores authentication and violates the documented schema
+            return 200, [("Content-Type", "application/json")], b'{"id": "not-an-integer"}'
+
+        rec = Recorder(responder)
+        try:
+            headers = {"Authorization": secret} if in_header else {"X-A": secret}
+            import schemathesis.specs.openapi.checks  # noqa: F401  (registers the OpenAPI checks)
+            from schemathesis.checks import CHECKS
+
+            evs, reqs = run_engine(raw, None, phases=["fuzzing"], workers=1, max_examples=rng.randint(1, 3), seed=i + 1, headers=headers,
+                                   continue_on_failure=rng.random() < 0.5, rec=rec, checks=CHECKS.get_all(), configure=_no_sanitize)
+            by_id = {}
+            for r in reqs:
+                for k, v in r["headers"]:
+                    if k.lower() == "x-schemathesis-testcaseid":
+                        by_id.setdefault(v, []).append(r)
+            samples = []
+            for ev in evs:
+                recorder = getattr(ev, "recorder", None)
+                if type(ev).__name__ != "ScenarioFinished" or recorder is None:
+                    continue
+                for case_id, nodes in recorder.checks.items():
+                    for node in nodes:
+                        if node.failure_info is not None:
+                            samples.append((case_id, node.name, node.failure_info.code_sample, case_id not in {c for c in recorder.cases if recorder.cases[c].parent_id is None}))
+            seen_cmd = set()
+            for case_id, check_name, cmd, is_derived in samples:
+                if (case_id, cmd) in seen_cmd:
+                    continue
+                seen_cmd.add((case_id, cmd))
+                first = by_id.get(case_id, [])
+                rec.take()
+                subprocess.run(["dash", "-c", cmd + " -s -o /dev/null --max-time 10"], capture_output=True, timeout=30, cwd="/")
+                second = rec.take()
+                done += 1
+                derived += bool(is_derived)
+                chk.seen({"engine_report": {"check": check_name, "derived": bool(is_derived), "cmd": cmd[:200]}}, True)
+                chk.count("engine_report:" + check_name + (":derived" if is_derived else ""))
+                diff = compare_e2e(first[-1:], second) if first else f"no request was sent under test case id {case_id}"
+                if diff is not None:
+                    bad += 1
+                    chk.fail(f"the code sample recorded for check {check_name} (case {'derived inside the check' if is_derived else 'generated'}) "
+                             f"sends a different request: {diff}", {"engine_report": {"check": check_name, "command": cmd[:400], "seed": i + 1}})
+        finally:
+            rec.close()
+    return {"code_samples_replayed": done, "of_derived_cases": derived, "differences": bad}
 
 
 def witness_fails(w) -> bool:
